@@ -28,7 +28,7 @@ package mautil
 //@ func FindHTTPAddrs$1
 //@   property C20
 //@   ghost ps := zero("[]multiaddr.Protocol")
-//@   at call Protocols#1: after ghost ps := result
+//@   at call Protocols: after ghost ps := result
 //@   ensures-local target == nil ==> !result
 //@   ensures-local target != nil ==> (result <==> exists(j, 0, len(ps), ps[j].Code == multiaddr.P_HTTP || ps[j].Code == multiaddr.P_HTTPS))
 //@   loop 1: invariant forall(j, 0, rangeindex + 1, !(ps[j].Code == multiaddr.P_HTTP || ps[j].Code == multiaddr.P_HTTPS))
@@ -49,9 +49,9 @@ package mautil
 //@   ghost pub := false
 //@   ghost unspec := false
 //@   ghost comp := zero("*multiaddr.Component")
-//@   at call SplitFirst#1: after ghost comp := result0
-//@   at call IsPublicAddr#1: after ghost pub := result
-//@   at call IsIPUnspecified#1: after ghost unspec := result
+//@   at call SplitFirst: after ghost comp := result0
+//@   at call IsPublicAddr: after ghost pub := result
+//@   at call IsIPUnspecified: after ghost unspec := result
 //@   ensures-local target == nil ==> result
 //@   ensures-local target != nil && comp == nil ==> !result
 //@   ensures-local count("call:IsPublicAddr") == 1 ==> (result <==> (pub && (count("call:IsIPUnspecified") == 0 || !unspec)))
